@@ -145,11 +145,16 @@ def relay_validate(chk, results, pid="C06"):
             sc = rr["sc"]
             inj = f"{sc['fail'][0]}:{sc['fail'][1]}" if sc["fail"] else (f"consumer_{sc['consumer'][0]}:{sc['consumer'][1]}" if sc["consumer"] else "none")
             evs = rr["relay"]["events"]
-            chk.violation(f"{pid}:relay-trace:{'lazy' if sc['lazy'] else 'eager'}:mm{sc['max_messages']}:{inj}:rejected",
-                          f"real run of the chain ({inj}, lazy={sc['lazy']}, max_messages={sc['max_messages']}, schedule seed {rr['seed']}) is not a "
-                          f"behaviour of spec/Pipeline.tla: rejected at event {ev} of {len(evs)}"
-                          + (f" ({r.violated} violated along the trace)" if ev < 0 else f": {json.dumps(evs[ev - 1]) if 0 < ev <= len(evs) else ''}"),
-                          dict(sc=sc, seed=rr["seed"], sched=rr["sched"], relay_event=ev))
+            if ev < 0:
+                # a P-level invariant of Pipeline.tla fails in a state the real run went through: a verdict
+                chk.violation(f"{pid}:relay-trace:{'lazy' if sc['lazy'] else 'eager'}:mm{sc['max_messages']}:{inj}:{r.violated}",
+                              f"real run of the chain ({inj}, lazy={sc['lazy']}, max_messages={sc['max_messages']}, schedule seed {rr['seed']}): "
+                              f"{r.violated} is violated along the recorded trace", dict(sc=sc, seed=rr["seed"], sched=rr["sched"], relay_event=ev))
+            else:
+                # the real run departs from the I-level model (internal mailbox state): reported as drift, not a verdict -
+                # the P-level judgement of the same run (PipelineObs / BackpressureObs) decides
+                chk.drift.append(dict(kind="real chain run is not a behaviour of Pipeline.tla", scenario=f"{inj} lazy={sc['lazy']} max_messages={sc['max_messages']} seed={rr['seed']}",
+                                      at=ev, of=len(evs), event=evs[ev - 1] if 0 < ev <= len(evs) else None))
     chk.traces += nok
     chk.extra["relay_traces_validated"] = nok
 
